@@ -164,6 +164,15 @@ class SqrtStatio(jinns.loss.PDEStatio):
         return jnp.reshape(d + jnp.sqrt(params.eq_params["sq"]) * u(x, params)[0] - _theta(params), (1,))
 
 
+# ----------------------------------------------------------------------------- a plain forward problem (no eq. parameter)
+class ForwardODE(jinns.loss.ODE):
+    """u' + 0.7 u - sin(t): no equation parameter at all"""
+
+    def equation(self, t, u, params):
+        d = jax.grad(lambda tt: u(tt, params)[0])(jnp.reshape(t, ()))
+        return jnp.reshape(d + 0.7 * u(t, params)[0] - jnp.sin(jnp.reshape(t, ())), (1,))
+
+
 # ----------------------------------------------------------------------------- system equations
 def _sys_resid(self, z, us, params_dict):
     return self.A @ us + self.Bz @ z + self.C * jnp.sum(params_dict.eq_params["theta"])
